@@ -124,90 +124,122 @@ proof! {
 		let (href, root_ref) = reference(&leaves);
 		{
 			let mmr = PMMR::at(&mut ba, SIZE as u64);
-			let q: usize = nd::any();
-			nd::assume(q < SIZE);
-			check!(mmr.get_hash(q as u64) == Some(href[q]), "every node hash equals the defining construction");
+			// indices are enumerated concretely (a symbolic index made symbolic execution itself
+			// run for > 15 min); the leaf contents stay symbolic
+			let mut q = 0;
+			while q < SIZE {
+				check!(mmr.get_hash(q as u64) == Some(href[q]), "every node hash equals the defining construction");
+				q += 1;
+			}
 			check!(mmr.root() == Ok(root_ref), "root = peaks bagged right to left with the size");
 			check!(mmr.validate().is_ok(), "PMMR::validate accepts its own construction");
-			// a proof for any present leaf verifies for exactly that element at that position
-			let i: usize = nd::any();
-			nd::assume(i < NL);
-			let pos = pmmr::insertion_to_pmmr_index(i as u64);
-			let proof = mmr.merkle_proof(pos);
-			check!(proof.is_ok(), "a proof exists for every leaf");
-			let proof = proof.unwrap();
-			check!(proof.verify(root_ref, &leaves[i], pos).is_ok(), "honest proof verifies");
-			core::mem::forget(proof);
+			check!(mmr.unpruned_size() == SIZE as u64, "size");
 		}
 		core::mem::forget(ba);
 	}
 }
 
 proof! {
+	[hash_mix, rand] fn honest_proofs_verify() {
+		// a proof for any present leaf verifies for exactly that element at that position
+		let leaves = any_leaves();
+		let mut ba = build(&leaves);
+		{
+			let mmr = PMMR::at(&mut ba, SIZE as u64);
+			let root = mmr.root().unwrap();
+			let mut i = 0;
+			while i < NL {
+				let pos = pmmr::insertion_to_pmmr_index(i as u64);
+				let proof = mmr.merkle_proof(pos);
+				check!(proof.is_ok(), "a proof exists for every leaf");
+				let proof = proof.unwrap();
+				check!(proof.mmr_size == SIZE as u64, "proof records the mmr size");
+				check!(proof.verify(root, &leaves[i], pos).is_ok(), "honest proof verifies");
+				core::mem::forget(proof);
+				i += 1;
+			}
+			// no proof for a non-leaf position
+			if SIZE > 2 {
+				check!(mmr.merkle_proof(2).is_err(), "no proof for a parent position");
+			}
+		}
+		core::mem::forget(ba);
+	}
+}
+
+/// which leaf the soundness query is about
+const LEAF: usize = parse_env(option_env!("VH_LEAF"), 0) as usize;
+/// which corruption: 1 element, 2 position, 3 altered path hash, 4 shortened, 5 lengthened
+const KIND: u64 = parse_env(option_env!("VH_KIND"), 1);
+
+proof! {
 	[hash_ideal, rand] fn merkle_proof_sound() {
-		// under the ideal hash: any single corruption of element, position or path is rejected
+		// under the ideal hash: every single corruption of element, position or path is rejected.
+		// Leaf index, path index and probe position are enumerated concretely; element values and
+		// substituted hashes are symbolic.
 		let leaves = any_leaves();
 		let mut ba = build(&leaves);
 		let mmr = PMMR::at(&mut ba, SIZE as u64);
 		let root = mmr.root().unwrap();
-		let i: usize = nd::any();
-		nd::assume(i < NL);
+		let i = LEAF;
 		let pos = pmmr::insertion_to_pmmr_index(i as u64);
 		let proof = mmr.merkle_proof(pos).unwrap();
 		check!(proof.verify(root, &leaves[i], pos).is_ok(), "honest proof verifies");
-		let kind: u8 = nd::any();
-		nd::assume(kind < 5);
-		let r = match kind {
-			0 => {
-				// another element
-				let e = Elem(nd::any());
-				nd::assume(e != leaves[i]);
-				cover!(true, "other element");
-				proof.verify(root, &e, pos)
+		// (1) another element
+		if KIND == 1 {
+		let e = Elem(nd::any());
+		nd::assume(e != leaves[i]);
+		check!(proof.verify(root, &e, pos).is_err(), "another element never verifies");
+		}
+		// (2) another position: every position of the mmr and a few beyond
+		let mut p = 0u64;
+		while KIND == 2 && p < SIZE as u64 + 3 {
+			if p != pos {
+				check!(proof.verify(root, &leaves[i], p).is_err(), "another position never verifies");
 			}
-			1 => {
-				// another position (any u64: other leaf, non-leaf, outside the mmr)
-				let p: u64 = nd::any();
-				nd::assume(p != pos && p < (1 << 20));
-				cover!(true, "other position");
-				proof.verify(root, &leaves[i], p)
+			p += 1;
+		}
+		// (3) one path hash replaced by an arbitrary different value
+		let x: [u8; 32] = nd::any();
+		let xh = Hash::from_vec(&x);
+		let mut j = 0;
+		while KIND == 3 && j < proof.path.len() {
+			let mut p2 = proof.clone();
+			if xh != p2.path[j] {
+				p2.path[j] = xh;
+				check!(p2.verify(root, &leaves[i], pos).is_err(), "an altered path hash never verifies");
 			}
-			2 => {
-				// one path hash replaced by an arbitrary value
-				let j: usize = nd::any();
-				nd::assume(j < proof.path.len());
-				let x: [u8; 32] = nd::any();
-				let mut p2 = proof.clone();
-				nd::assume(Hash::from_vec(&x) != p2.path[j]);
-				p2.path[j] = Hash::from_vec(&x);
-				cover!(true, "altered path hash");
-				p2.verify(root, &leaves[i], pos)
-			}
-			3 => {
-				// path shortened
-				let mut p2 = proof.clone();
-				nd::assume(!p2.path.is_empty());
-				let front: bool = nd::any();
-				if front { p2.path.remove(0); } else { p2.path.pop(); }
-				cover!(true, "shortened path");
-				p2.verify(root, &leaves[i], pos)
-			}
-			_ => {
-				// path lengthened by an arbitrary hash
-				let x: [u8; 32] = nd::any();
-				let mut p2 = proof.clone();
-				let front: bool = nd::any();
-				if front { p2.path.insert(0, Hash::from_vec(&x)); } else { p2.path.push(Hash::from_vec(&x)); }
-				cover!(true, "lengthened path");
-				p2.verify(root, &leaves[i], pos)
-			}
-		};
-		check!(r.is_err(), "a corrupted (element, position, path) never verifies against the root");
+			core::mem::forget(p2);
+			j += 1;
+		}
+		// (4) path shortened at either end
+		if KIND == 4 && !proof.path.is_empty() {
+			let mut p2 = proof.clone();
+			p2.path.remove(0);
+			check!(p2.verify(root, &leaves[i], pos).is_err(), "a path shortened at the front never verifies");
+			core::mem::forget(p2);
+			let mut p3 = proof.clone();
+			p3.path.pop();
+			check!(p3.verify(root, &leaves[i], pos).is_err(), "a path shortened at the back never verifies");
+			core::mem::forget(p3);
+		}
+		// (5) path lengthened by an arbitrary hash at either end
+		if KIND == 5 {
+		let mut p4 = proof.clone();
+		p4.path.insert(0, xh);
+		check!(p4.verify(root, &leaves[i], pos).is_err(), "a path lengthened at the front never verifies");
+		core::mem::forget(p4);
+		let mut p5 = proof.clone();
+		p5.path.push(xh);
+		check!(p5.verify(root, &leaves[i], pos).is_err(), "a path lengthened at the back never verifies");
+		core::mem::forget(p5);
+		}
 		core::mem::forget(proof);
 	}
 }
 
 pub const HARNESSES: &[(&str, fn())] = &[
 	("c07b::construction_equals_definition", construction_equals_definition),
+	("c07b::honest_proofs_verify", honest_proofs_verify),
 	("c07b::merkle_proof_sound", merkle_proof_sound),
 ];
